@@ -23,6 +23,9 @@ var corpus = []baseDoc{
 	{"nw-negative", "newick", "((a:-1,b:0)-0.5:1e400,c:NaN,d:.5);"},
 	{"nw-root-length", "newick", "((a:1,b:2)0.5:3,(c:4,d:5)0.25/0.01:6)0.75:7;"},
 	{"nw-inner-comment-only", "newick", "((a,b)[x],(c,d)[&&NHX:S=1])[y];"},
+	{"nw-formfeed-label", "newick", "((a,b)\f,c\v:1,(d\u00a0,\u0085e)\u00a0:2);"},
+	{"nw-unicode-blank-only-labels", "newick", "((a,b)\u00a0:1,(\f,\u2003)\v,c);"},
+	{"nw-slash-labels", "newick", "((a,b)/:1,(c,d)x/y:1,(e,f)1/:1,(g,h)/2,(i,j)0.5/0.1/3);"},
 	{"nw-sci", "newick", "(a:1E-5,b:1.5e+3,(c:0.0,d:-0.0):1e0);"},
 	// ---- multi-tree Newick streams
 	{"multi-3", "multi", "((a:1,b:1)0.9:1,c:1,d:1);\n((a:1,c:1):1,b:1,d:1);\n(a,b,(c,d));\n"},
@@ -69,6 +72,8 @@ END;
 	{"nx-unknown-block", "nexus", "#NEXUS\nBEGIN PAUP;\n set autoclose=yes [c] warnreset=no;\n log file=x;\nEND;\nBEGIN TREES;\n[c1]\nTREE t = (a,b,(c,d));\n[c2]\nEND;\n"},
 	{"nx-protein", "nexus", "#NEXUS\nBEGIN DATA;\nDIMENSIONS NTAX=2 NCHAR=3;\nFORMAT DATATYPE=protein MISSING=? GAP=-;\nMATRIX\ns1 MK?\ns2 M-L\n;\nEND;\n"},
 	{"nx-crlf", "nexus", "#NEXUS\r\nBEGIN TREES;\r\nTREE t = (a,b,(c,d));\r\nEND;\r\n"},
+	{"nx-cr-only-16-trees", "nexus", "#NEXUS\rBEGIN TREES;\rTREE t0 = (a,b,(c,d));\rTREE t1 = (a,b,(c,d));\rTREE t2 = (a,b,(c,d));\rTREE t3 = (a,b,(c,d));\rTREE t4 = (a,b,(c,d));\rTREE t5 = (a,b,(c,d));\rTREE t6 = (a,b,(c,d));\rTREE t7 = (a,b,(c,d));\rTREE t8 = (a,b,(c,d));\rTREE t9 = (a,b,(c,d));\rTREE t10 = (a,b,(c,d));\rTREE t11 = (a,b,(c,d));\rTREE t12 = (a,b,(c,d));\rTREE t13 = (a,b,(c,d));\rTREE t14 = (a,b,(c,d));\rTREE t15 = (a,b,(c,d));\rEND;\r"},
+	{"nx-14-identical-warnings", "nexus", "#NEXUS\nBEGIN PAUP;\nset x=0;\nEND;\nBEGIN PAUP;\nset x=0;\nEND;\nBEGIN PAUP;\nset x=0;\nEND;\nBEGIN PAUP;\nset x=0;\nEND;\nBEGIN PAUP;\nset x=0;\nEND;\nBEGIN PAUP;\nset x=0;\nEND;\nBEGIN PAUP;\nset x=0;\nEND;\nBEGIN PAUP;\nset x=0;\nEND;\nBEGIN PAUP;\nset x=0;\nEND;\nBEGIN PAUP;\nset x=0;\nEND;\nBEGIN PAUP;\nset x=0;\nEND;\nBEGIN PAUP;\nset x=0;\nEND;\nBEGIN PAUP;\nset x=0;\nEND;\nBEGIN PAUP;\nset x=0;\nEND;\nBEGIN TREES;\nFOO bar;\nFOO bar;\nFOO bar;\nFOO bar;\nFOO bar;\nFOO bar;\nFOO bar;\nFOO bar;\nFOO bar;\nFOO bar;\nFOO bar;\nFOO bar;\nFOO bar;\nFOO bar;\nTREE t = (a,b,(c,d));\nEND;\n"},
 	{"nx-lowercase", "nexus", "#nexus\nbegin taxa;\ndimensions ntax=4;\ntaxlabels a b c d;\nend;\nbegin trees;\ntranslate 1 a, 2 b, 3 c, 4 d;\ntree t = (1,2,(3,4));\nend;\n"},
 	{"nx-interleaved-comments", "nexus", "#NEXUS\nBEGIN TAXA; [x] DIMENSIONS [y] NTAX=2; TAXLABELS [z] a b; END;\nBEGIN TREES; TREE [w] t = (a,b); END;\n"},
 	{"nx-sets", "nexus", "#NEXUS\nBEGIN SETS;\nCHARSET first = 1-10;\nEND;\nBEGIN ASSUMPTIONS;\nOPTIONS DEFTYPE=unord;\nEND;\nBEGIN TREES;\nTREE t=(a,b,c);\nEND;\n"},
@@ -95,6 +100,9 @@ END;
 </phyloxml>
 `},
 	{"px-taxonomy", "phyloxml", `<phyloxml><phylogeny rooted="true"><clade><clade><taxonomy><id provider="ncbi">9606</id><scientific_name>Homo sapiens</scientific_name><code>HUMAN</code></taxonomy></clade><clade><taxonomy><code>MOUSE</code></taxonomy><branch_length>0.5</branch_length></clade></clade></phylogeny></phyloxml>`},
+	{"px-phylogeny-without-clade-first", "phyloxml", `<phyloxml><phylogeny rooted="true"><name>only a name</name><description>no clade</description></phylogeny><phylogeny rooted="true"><clade><clade><name>a</name></clade><clade><name>b</name></clade></clade></phylogeny></phyloxml>`},
+	{"px-phylogeny-without-clade-only", "phyloxml", `<phyloxml><phylogeny rooted="false"><name>n</name></phylogeny></phyloxml>`},
+	{"px-unrooted-two-children", "phyloxml", `<phyloxml><phylogeny rooted="false"><clade><clade><branch_length>1</branch_length><clade><name>a</name><branch_length>1</branch_length></clade><clade><name>b</name><branch_length>2</branch_length></clade></clade><clade><branch_length>3</branch_length><clade><name>c</name><branch_length>1</branch_length></clade><clade><name>d</name><branch_length>1</branch_length></clade></clade></clade></phylogeny></phyloxml>`},
 	{"px-empty", "phyloxml", `<phyloxml></phyloxml>`},
 	{"px-noname-tip", "phyloxml", `<phyloxml><phylogeny rooted="true"><clade><clade></clade><clade><name>b</name></clade></clade></phylogeny></phyloxml>`},
 	{"px-root-length-confidence", "phyloxml", `<phyloxml><phylogeny rooted="true"><clade><name>root</name><branch_length>0.5</branch_length><confidence type="bootstrap">0.9</confidence><clade><name>a</name><branch_length>1</branch_length><confidence type="x">0.1</confidence></clade><clade><branch_length>2</branch_length><confidence type="bootstrap">0.7</confidence><clade><name>b</name></clade><clade><name>c</name></clade></clade></clade></phylogeny></phyloxml>`},
